@@ -501,7 +501,13 @@ Faults(n, val, loc, pk, fnf) ==
     LET N == Nodes[n] cl == Classify(n, val, loc, pk)
         base ==
           CASE cl.ph = "bad"    -> <<DescOfDet(cl.det, cl.eloc)>>
-            [] cl.ph = "leafok" -> <<>>
+            \* a unit variant under deny_unknown_fields that the run treated like a field-less struct-like variant (see Trace_core!LaxUnit)
+            [] cl.ph = "leafok" -> IF N.c = "enum" /\ [f |-> "unitdeny", loc |-> loc, j |-> 0] \in fnf
+                                   THEN LET tj == Min(TagMembers(N, val))
+                                            obs == SetToSeqByRank(StructPend(N, cl.vi, val, tj))
+                                        IN [j \in 1..Len(obs) |-> IF N.deny = "fn" THEN FnDesc(N.denyfn, loc)
+                                                                  ELSE Desc("unknownkey", loc, val.e[obs[j].i].k, 0, NullV, {})]
+                                   ELSE <<>>
             [] cl.ph = "jbad"   -> LET ls == LeavesAsSeq(NonFiniteLeaves(val, loc)) IN      \* one report per float that JSON cannot hold
                                    [j \in 1..Len(ls) |-> Desc("unexpected", ls[j], "", 0, NullV, {})]
             [] cl.ph = "work"   ->
